@@ -8,11 +8,13 @@ CONSTANTS
   FIXOHEXP = TRUE
   FIXOHFLG = TRUE
   FIXOHSEC = TRUE
+  PEERIMPL = FALSE
   XorAcc <- SymXor
   MAXLEN = 2
   ALLCH = FALSE
   Depth = 3
   GEN = FALSE
   ALS = {TRUE, FALSE}
+  PEERS = {FALSE}
 INVARIANTS Bounded Emit
 PROPERTIES ErrIsAtomicStep MonotoneStep EgressForwardStep XoverForwardStep
